@@ -248,6 +248,7 @@ class PrecipitateModel (PrecipitateBase):
         #The table now corresponds to T, so restart the accumulated temperature change
         #   (the table is also recreated when the size classes are re-meshed)
         self.dTemp = 0
+        self._lookupTemperature = T
         return xEqAlpha, xEqBeta
     
     def _setupAspectRatio(self):
@@ -541,7 +542,12 @@ class PrecipitateModel (PrecipitateBase):
         #Update equilibrium interfacial compositions
         #This will be override if _createLookupBinary is called
         T = Y.temperature[0]
-        self.dTemp += T - self.pData.temperature[self.pData.n]
+        #Temperature change since the lookup table was created
+        #   (accumulating differences to the last recorded step miscounts when the table is rebuilt during an intermediate stage of the iterator)
+        if hasattr(self, '_lookupTemperature'):
+            self.dTemp = T - self._lookupTemperature
+        else:
+            self.dTemp += T - self.pData.temperature[self.pData.n]
         if np.abs(self.dTemp) > self.constraints.maxTempChange:
             xEqAlpha, xEqBeta = self._createLookupBinary(T)
             #Temperature change is accumulated since the last time the lookup table was created
